@@ -1,6 +1,3 @@
 package main
 
-func cmdRun(args []string) int                  { return 2 }
-func cmdReplay(args []string) int               { return 2 }
-func cmdSelftestDeterminism(args []string) int  { return 2 }
-func cmdExec(args []string) int                 { return 2 }
+func cmdSelftestDeterminism(args []string) int { return 2 }
